@@ -10,6 +10,7 @@ import numpy as np
 
 from rv import core, zoo, monitors
 
+ANCHORS = ['density2d', 'FCSData.hist_bins']      # functions the property is anchored in: never entered => inconclusive
 LEVEL = 'exploration'
 LEVEL_TEXT = 'Contract on the real density2d: bin atomicity from an independently recomputed event-to-bin map, target count, minimality and density order on the documented smoothed density, plus permutation/nesting/replay metamorphic runs and refusals; also evaluated in situ inside the Excel workflow (C10). Exploration.'
 TECHNIQUE = 'runtime contract on density2d (independent bin map + smoothed-density order oracle) + metamorphic driver (permute, nest, replay)'
